@@ -14,6 +14,8 @@ VERIF_ERRS = [
     'decreases not satisfied', 'possible bit shift underflow/overflow', 'recommendation not met',
     'could not prove termination', 'loop invariant not satisfied', 'assertion not satisfied',
     'unreachable code', 'could not show', 'not all trait items', 'possible truncation',
+    # custom-message preconditions of vstd, e.g. slice/Vec indexing: "precondition not met: index in bounds for this access"
+    'precondition not met',
     'failed this postcondition', 'unable to prove post-condition of closure', 'fails to satisfy `callee.requires(args)`', 'constructed value may fail to meet its declared type invariant',
 ]
 RLIMIT_ERRS = ['Resource limit (rlimit) exceeded', 'rlimit exceeded', 'canceled']
